@@ -68,9 +68,9 @@ namespace _details {
 template<typename Alloc, typename Awt, typename Fn, typename ... Args>
 with_allocator<Alloc,async<void> > callback_await_coro(Alloc &, Fn fn, Args ... args) noexcept {
     using RetVal = std::decay_t<awaiter_return_value<Awt> >;
-    Awt awt(std::forward<Args>(args)...);
     bool called = false;    //the callback is called exactly once, even if it throws
     try {
+        Awt awt(std::forward<Args>(args)...);   //exception thrown here is reported to the callback as well
         if constexpr(std::is_void_v<RetVal>) {
             co_await awt;
             called = true;
